@@ -103,3 +103,13 @@ Theorem C05_flush_then_open_reads_the_handle_state b h arcs :
   open_image (fb_disk (flush b)) = Some (h, arcs).
 Proof. exact (flush_then_open b h arcs). Qed.
 Print Assumptions C05_flush_then_open_reads_the_handle_state.
+
+(** Create again (open flag without O_EXCL) over a synced file with the same header: the disk is what it
+    was, the handle shows what was synced, and abandoning it changes nothing (operation [createover]) *)
+Theorem C05_create_over_synced_file_changes_nothing_before_sync h h' :
+  create_over h = Some h' -> hd_disk h' = hd_disk h /\ hd_arcs h' = hd_disk h /\ reopen h' = Some h'.
+Proof.
+  unfold create_over, reopen. destruct (hd_hdr_on_disk h) eqn:E; [|discriminate].
+  intros H; inversion H; subst h'; cbn. repeat split; reflexivity.
+Qed.
+Print Assumptions C05_create_over_synced_file_changes_nothing_before_sync.
